@@ -49,7 +49,9 @@ func (c Cache) Get(fn string, args []object.Object) (object.Object, []byte, bool
 	if ok {
 		verifCacheHit()
 	}
-	return result.Result, result.Output, ok
+	// (a copy: large arrays and maps are updated in place by index assignment, the receiver must not share
+	// its storage with what is remembered here.)
+	return object.DeepCopy(result.Result), result.Output, ok
 }
 
 func (c Cache) Set(fn string, args []object.Object, result object.Object, output []byte) {
@@ -67,5 +69,5 @@ func (c Cache) Set(fn string, args []object.Object, result object.Object, output
 		}
 		key.Args[i] = v
 	}
-	c[key] = CacheValue{Result: result, Output: output}
+	c[key] = CacheValue{Result: object.DeepCopy(result), Output: output} // same: the caller keeps the original.
 }
